@@ -270,6 +270,11 @@ def r4(ctx):
                     ctx.inst(R, f"{b.id}:store-{fld.rsplit('::', 1)[1]}", ok, t["s"], "replaced by a value from rt::init" if ok else
                              f"`{b.id}` installs a {fld.rsplit('::', 1)[1]} that does not come from rt::init (e.g. mem::take -> Default): after a crash / bounce panics of that host are no longer forwarded")
         for bb, i, s in b.all_stmts():
+            lf = place_last_field(s["p"])
+            if lf in ("turmoil::rt::Rt::local", "turmoil::rt::Rt::tokio") and isinstance(s["p"]["p"][-1], dict) and s["p"]["p"][-1].get("f") in ("local", "tokio") and s["r"]["k"] == "use":
+                ok = "call:turmoil::rt::init" in Slicer(ctx.w).atoms(b, s["r"]["o"])
+                ctx.inst(R, f"{b.id}:store-{lf.rsplit('::', 1)[1]}", ok, s["s"], "assigned a value from rt::init" if ok else
+                         f"`{b.id}` installs a {lf.rsplit('::', 1)[1]} that does not come from rt::init: after a crash / bounce panics of that host are no longer forwarded")
             if s["r"]["k"] == "agg" and s["r"].get("adt") == "turmoil::rt::Rt":
                 m = dict(zip(s["r"]["fields"], s["r"]["ops"]))
                 ok = all("call:turmoil::rt::init" in Slicer(ctx.w).atoms(b, m[f]) for f in ("tokio", "local"))
